@@ -7,6 +7,7 @@ package core
 import (
 	"fmt"
 	"hash/fnv"
+	"regexp"
 	"sort"
 	"strings"
 	"time"
@@ -54,6 +55,7 @@ type w1RdSess struct {
 	closeSeq                     int64
 	closeT                       time.Duration
 	nclose                       int
+	closeSeqs                    []int64
 	sremCall, sremRet            int64
 	discarded                    int64
 	premoveCall, premoveRet      int64
@@ -192,6 +194,7 @@ func w1Parse(ev []simrt.Ev) *w1Hist {
 		case "rd.close":
 			if r := h.rdByNm[e.A]; r != nil {
 				r.nclose++
+				r.closeSeqs = append(r.closeSeqs, e.Seq)
 				if r.closeSeq == 0 {
 					r.closeSeq = e.Seq
 					r.closeT = e.T
@@ -512,8 +515,8 @@ func w1C16(h *w1Hist, body *w1Body, v *w1Viol) {
 		for _, r := range h.rds {
 			for _, d := range r.datas {
 				w := h.wrIndex[[2]int64{d.K, d.N}]
-				if w == nil || w.who != p.name || w.serial < p.firstSerial || w.serial > p.lastSerial {
-					continue
+				if w == nil || w.who != p.name || w.begin < p.addRet || (p.removeCall > 0 && w.begin > p.removeCall) {
+					continue // not a write of this session
 				}
 				if w.begin > c && d.Seq < r.defEnd() {
 					v.add("C16", "stale-data",
@@ -630,7 +633,18 @@ func w1C18(h *w1Hist, body *w1Body, v *w1Viol) {
 		if r.ok && r.pathObj != 0 {
 			byPath[r.pathObj] = append(byPath[r.pathObj], r)
 		}
-		if r.nclose > 1 {
+		// a second request of the same reader that is in flight when the path closes it
+		// attaches it again: every such request accounts for one more legitimate close
+		extra := 0
+		for _, x := range r.readds {
+			for _, cs := range r.closeSeqs {
+				if cs > x[0] && (x[1] == 0 || cs < x[1]) {
+					extra++
+					break
+				}
+			}
+		}
+		if r.nclose > 1+extra {
 			v.add("C18", "closed-twice", "reader %s was closed %d times during one attachment", r.name, r.nclose)
 		}
 		for _, x := range r.readds {
@@ -928,7 +942,9 @@ func w1C19(h *w1Hist, body *w1Body, v *w1Viol, cfg simrt.Config, completed, sche
 		// (whose duration is checked above); the reader records it later
 		found := false
 		for _, sp := range append(append([]*span{}, srcSpans[r.path]...), cmdSpans[r.path]...) {
-			if sp.reason == "timed out" && sp.endSeq > r.addCall && sp.endSeq < r.addRet {
+			// (the expiry answers the held requests first and logs the stop afterwards,
+			// so the reader may record the response before the stop is logged)
+			if sp.reason == "timed out" && sp.endSeq > r.addCall && sp.startSeq < r.addRet {
 				found = true
 			}
 		}
@@ -1217,7 +1233,17 @@ func w1C39(h *w1Hist, body *w1Body, v *w1Viol, completed bool) {
 				v.add("C39", "fwd-order", "path %q lists forward destination %q at index %d", e.A, it, i)
 			}
 		}
-		if prev := lastObs[key]; prev != nil && h.reloadsBetween(prev.seq, o.seq) <= 1 {
+		if prev := lastObs[key]; prev != nil {
+			// Reloads reach a path asynchronously, so any configuration version whose
+			// reload was requested before this observation may have been applied in
+			// between. An index is "unchanged" only if every such version (and the
+			// initial one) configures the same destination there.
+			cands := []int64{0}
+			for _, r := range h.reloads {
+				if r[0] < o.seq {
+					cands = append(cands, r[2])
+				}
+			}
 			for i := 0; i < len(prev.items) && i < len(o.items); i++ {
 				a := strings.Split(prev.items[i], "=")
 				b := strings.Split(o.items[i], "=")
@@ -1227,11 +1253,25 @@ func w1C39(h *w1Hist, body *w1Body, v *w1Viol, completed bool) {
 				// fields: pos, dest (may contain '='), id, state
 				da, ia := strings.Join(a[1:len(a)-2], "="), a[len(a)-2]
 				db, ib := strings.Join(b[1:len(b)-2], "="), b[len(b)-2]
-				if da == db && ia != ib {
-					v.add("C39", "unchanged-forwarder-restarted", "path %q: destination %q at index %d was not changed by the reload but its forwarder was replaced (%s -> %s)", e.A, da, i+1, ia, ib)
-				}
 				if da != db && ia == ib {
 					v.add("C39", "changed-forwarder-kept", "path %q: destination at index %d changed from %q to %q but the forwarder %s kept running", e.A, i+1, da, db, ia)
+				}
+				if da == db && ia != ib {
+					constant := true
+					for _, cv := range cands {
+						if int(cv) >= len(body.Versions) {
+							constant = false
+							break
+						}
+						pc := w1Resolve(&body.Versions[cv], e.A)
+						if pc == nil || i >= len(pc.Forward) || !strings.Contains(da, "/"+pc.Forward[i]+"?") {
+							constant = false
+							break
+						}
+					}
+					if constant {
+						v.add("C39", "unchanged-forwarder-restarted", "path %q: destination %q at index %d is the same in every configuration version applied so far but its forwarder was replaced (%s -> %s)", e.A, da, i+1, ia, ib)
+					}
 				}
 			}
 		}
@@ -1247,14 +1287,43 @@ func w1C39(h *w1Hist, body *w1Body, v *w1Viol, completed bool) {
 		switch e.Kind {
 		case "fwd.run":
 			running[e.A]++
-			if running[e.A] > 1 && !w1DupDest(body, e.A) && h.reloadsBetween(lastRun[e.A], e.Seq) == 0 {
-				v.add("C39", "forwarder-duplicated", "two forwarders run at once towards %q (seq %d) and no reload happened since the first one started (seq %d)", e.A, e.Seq, lastRun[e.A])
+			if running[e.A] > 1 && !w1DupDest(body, e.A) && h.reloadsBetween(0, e.Seq) == 0 {
+				v.add("C39", "forwarder-duplicated", "two forwarders run at once towards %q (seq %d, the other started at seq %d) and no reload has been requested so far", e.A, e.Seq, lastRun[e.A])
 			}
 			lastRun[e.A] = e.Seq
 		case "fwd.exit":
 			running[e.A]--
 		}
 	}
+}
+
+// w1Resolve returns the path specification that governs name in version v
+// (exact name, else the first matching regular expression in name order with
+// all_others last), written from the documentation, or nil.
+func w1Resolve(v *w1Version, name string) *w1Path {
+	for i := range v.Paths {
+		if v.Paths[i].Name == name {
+			return &v.Paths[i]
+		}
+	}
+	var res []*w1Path
+	for i := range v.Paths {
+		if strings.HasPrefix(v.Paths[i].Name, "~") {
+			res = append(res, &v.Paths[i])
+		}
+	}
+	sort.Slice(res, func(a, b int) bool { return res[a].Name < res[b].Name })
+	for _, p := range res {
+		if ok, _ := regexp.MatchString(p.Name[1:], name); ok {
+			return p
+		}
+	}
+	for i := range v.Paths {
+		if v.Paths[i].Name == "all_others" || v.Paths[i].Name == "all" {
+			return &v.Paths[i]
+		}
+	}
+	return nil
 }
 
 // w1DupDest reports whether some configuration lists the destination of url twice.
